@@ -58,6 +58,29 @@ VARIANTS = [
       *replace_expr("kernel.tune(keys[i], kernel_states[i], model_state, phase, history)",
                     "kernel.tune(keys[i], kernel_states[i], model_state, phase, None)"),
       note="no kernel sees the history", expect_rule="C12.R3"),
+    V("c12_var_axis", "M", M, "tune_inv_mm_diag",
+      *replace_expr("jnp.var(matrix, axis=0, ddof=1)", "jnp.var(matrix, axis=1, ddof=1)"),
+      note="variance over the coordinates instead of over time", expect_rule="C12.R1"),
+    V("c12_cov_rowvar", "M", M, "tune_inv_mm_full",
+      *replace_expr("jnp.cov(matrix, rowvar=False)", "jnp.cov(matrix, rowvar=True)"),
+      note="time points treated as variables", expect_rule="C12.R1"),
+    V("c12_reg_subtracted", "M", M, "tune_inv_mm_diag",
+      *replace_stmt("var = var + 0.001", "var = var - 0.001"),
+      note="regulariser subtracted", expect_rule="C12.R1"),
+    V("c12_reg_offdiag", "M", M, "tune_inv_mm_full",
+      *replace_expr("cov.at[jnp.diag_indices_from(cov)].add(0.001)",
+                    "cov.at[jnp.triu_indices_from(cov)].add(0.001)"),
+      note="regulariser added to the upper triangle", expect_rule="C12.R1"),
+    V("c12_step_divided", "M", N, "NUTSKernel._tune_slow",
+      *replace_stmt("kernel_state.step_size = adjustment * kernel_state.step_size",
+                    "kernel_state.step_size = kernel_state.step_size / adjustment"),
+      note="step size rescaled in the wrong direction", expect_rule="C12.R2"),
+    V("c12_guard_negated", "M", H, "HMCKernel._tune_slow",
+      *replace_expr("history is not None", "history is None"),
+      note="re-tuning only without history", expect_rule="C12.R2"),
+    V("c12_init_arms_swapped", "M", N, "NUTSKernel.init_state",
+      *replace_expr("self.mm_diag", "not self.mm_diag"),
+      note="dense identity in diagonal mode and vice versa", expect_rule="C12.R1"),
     # ---- twins
     V("c12_t_reshape_rowmajor", "T", M, "_history_to_matrix",
       lambda nd: isinstance(nd, ast.Return),
